@@ -510,6 +510,13 @@ def _gen_gauss(ctx, kind, D, B):
         width = np.exp(rng.uniform(np.log(1e-2 if wide else 0.5), np.log(1e2), size=(B, D)))
         lo = np.where(default[:, None], -1.0, np.round(lo, 2))
         hi = np.where(default[:, None], 1.0, lo + width)
+        # narrow intervals anchored at 0 (where the float type still resolves them): anything that treats
+        # the bounds with an ABSOLUTE margin shows up here
+        narrow = (rng.random(B) < 0.2) & ~default
+        nwidth = rng.choice([1e-5, 1e-4, 1e-3], size=(B, 1)) * np.ones((B, D))
+        lo = np.where(narrow[:, None], 0.0, lo)
+        hi = np.where(narrow[:, None], nwidth, hi)
+        ctx.count("squashed:narrow-intervals", int(narrow.sum()))
     else:
         loc = rng.uniform(-1, 1, size=(B, D)) * rng.choice([0.0, 1.0, 50.0], size=(B, 1))
         scale = np.exp(rng.uniform(np.log(1e-2), np.log(1e2), size=(B, D)))
